@@ -73,6 +73,8 @@ from . import specs as sp_                                 # noqa: E402
 
 
 class ValueCompare(FnContract):
+    replay_prepare = sp_.replay_prepare_cmp
+
     """result = CMP(H, left, right), no effects, no exception (acyclic values)."""
     qual = 'value.value_compare'
     result = 'int'
